@@ -24,6 +24,7 @@ import (
 type Options struct {
 	Rendezvous     bool
 	HonorDeadlines bool // buffered mode ignores deadlines unless set
+	ReadChunk      int  // >0: no Read returns more than this many bytes (a transport that delivers in small pieces)
 }
 
 // half is one direction of the pair.
@@ -109,6 +110,9 @@ func (h *half) read(p []byte) (int, error) {
 			n := len(p)
 			if n > len(h.buf) {
 				n = len(h.buf)
+			}
+			if h.opts.ReadChunk > 0 && n > h.opts.ReadChunk {
+				n = h.opts.ReadChunk
 			}
 			if len(h.readPlan) > 0 {
 				if h.readPlan[0] < n {
